@@ -1126,5 +1126,5 @@ pub fn bail_messages_rule(cx: &Cx, rep: &mut Report) {
     let mut bad = Vec::new();
     for defs in cx.ix.fns.values() { for f in defs { let mut v = V { bad: vec![], n: 0, file: f.file.clone() }; v.visit_block(&f.block); total += v.n; bad.extend(v.bad); } }
     rep.check(bad.is_empty(), "ES-entry-total", "bail!", "message", &format!("error sites without a literal message: {bad:?}"), "derive-ex/src", json!({}));
-    rep.floor("bail! sites with a literal message", total, 20);
+    rep.floor("bail! sites with a literal message", total, 12);
 }
